@@ -310,6 +310,8 @@ def hand_corpus():
     S("HBlobInChunk", chunked(field("n", "char"), field("data", "blob"), brk(), field("s", "string")))
     S("HBlobStructInChunk", chunked(field("bb", "HBlob"), brk(), field("s", "string"), brk(), field("m", "char")))
     S("HOptArrBreakReq", chunked(field("a", "char"), brk(), array("xs", "char", optional=True), brk(), field("z", "char"), field("s", "string", length=2)), rt=False)
+    # round 5: a length-less delimited array WITHOUT trailing delimiter, followed by more instructions (never reached when reading, but generated)
+    S("HDelimNoTrailThenMore", chunked(array("names", "string", delimited=True, trailing=False), array("more", "char", optional=True), field("z", "char", optional=True)), rt=False)
     S("HOnlyOptLen", field("s", "string", length=3, optional=True), array("xs", "char", length=2, optional=True), rt=False)      # every guard of the class is a length check
     S("HOptStrBreakReq", chunked(field("a", "char"), brk(), field("note", "string", optional=True), brk(), field("z", "char")), rt=False)
     K("Talk", "Request", "net/client", field("msg", "string"))
